@@ -1292,6 +1292,13 @@ class ConnectionBase(object):
             self.stats.dropped += 1
             return False
 
+        # a packet older than the window cannot be tested for duplication
+        # (and could not be acked): drop it
+        current = self.bitfield_pkt.current_seqnum
+        if current != 0 and current.diff(pkt.hdr.seq) > self.bitfield_pkt.nbits:
+            self.stats.dropped += 1
+            return False
+
         try:
             # TODO: log warning for packet flooding
             # if inserting dropped unacked bits then those packets will time out
